@@ -324,11 +324,14 @@ def explore(c, tier):
     doc["funcs"] = [{"kind": "plain", "result": "void", "params": ["vecstr_out"], "ndef": 0}]
     doc["class"] = False
     uniq.append(doc)
+    doc2 = json.loads(json.dumps(doc))
+    doc2["funcs"] = [{"kind": "plain", "result": "cstr_raw", "params": ["str_cref"], "ndef": 0}]
+    uniq.append(doc2)
     # one library per row with nothing else in it (a forgotten helper / include request is not masked)
     uniq += libgen.solo_libraries()
     if tier == "thorough":
         uniq += libgen.solo_libraries(F_CFI=True)
-        uniq += libgen.solo_libraries(sets["PyRows"], wrap_python=True, wrap_fortran=False)
+        uniq += libgen.solo_libraries(sets["PyRows"], wrap_python=True, wrap_fortran=False, wrap_c=False)
         uniq.append(libgen.wide_library(debug=False, doxygen=False, show_splicer_comments=False, line=40))
         uniq.append(libgen.wide_library(sets["PyRows"], wrap_python=True, wrap_fortran=True, F_CFI=True, literalinclude=True, line=132))
     results = [None] * len(uniq)
